@@ -225,10 +225,8 @@ Definition join (a b : val) : res val :=
   | VChar c, VStr t => Ok (VStr (c :: t))
   | VChar c, VChar d => Ok (VStr [c; d])
   | VList l, VList m => Ok (VList (l ++ m))
-  | VList l, y => Ok (VList (l ++ [y]))
+  | VList l, y => Ok (VList (l ++ [y]))          (* a string joined to a list is one element *)
   | x, VList m => Ok (VList (x :: m))
-  | VStr s, y => Ok (VList (chars s ++ [y]))
-  | x, VStr t => Ok (VList (x :: chars t))
   | x, y => Ok (VList [x; y])
   end.
 
@@ -455,8 +453,9 @@ Section Adverbs.
       bind (for_enum (fun i x => f (VList [VInt i; x])) 0 (items a) []) (fun r => ret (VList r))
     else f (VList [VInt 0; a]).
 
+  (* zip() iterates a str; a KGChar is a str of one character *)
   Definition seq_of (a : val) : option (list val) :=
-    match a with VStr s => Some (chars s) | VList l => Some l | _ => None end.
+    match a with VStr s => Some (chars s) | VChar c => Some [VChar c] | VList l => Some l | _ => None end.
 
   (* eval_adverb_each2 *)
   Definition m_each2 (f : val -> val -> M val) (a b : val) : M val :=
